@@ -20,7 +20,8 @@ func init() {
 		Decided: "D1 every class registry map is referenced only while one and the same package-level mutex is held, with the lookup and the insert of the get-or-create in a single lock region; " +
 			"D2 no object with post-construction writes (and no mutable standard-library value such as strings.Builder) is reachable from a package-level variable or from a field of a class struct, i.e. from state that all instances of a type share - bound receivers and captured variables of stored function values included; " +
 			"D3 package-level variables are never assigned outside their declaration." +
-			" Also: the fields of a class object are written only while it is built (they are constants every instance reads without a lock); a reference field of a new instance is not initialised from a field of the shared class object when instances mutate it; an object given back to a sync.Pool does not leave the function that gave it back.",
+			" Also: the fields of a class object are written only while it is built (they are constants every instance reads without a lock); a reference field of a new instance is not initialised from a field of the shared class object when instances mutate it; an object given back to a sync.Pool does not leave the function that gave it back." +
+			" Rounds 8-9: every write of a registry holds the exclusive lock (a double-checked binding under a read-write lock is accepted when the write lock region looks the registry up again).",
 		NotDecided: "equivalence of concurrent and sequential results; races inside one instance deliberately shared by the caller (excluded by the property).",
 		Run:        runC19,
 		Assumptions: []string{
